@@ -16,6 +16,14 @@
 import UnytModel.SystemTables
 import UnytProofs.Lemmas.C10
 import UnytProofs.Lemmas.C10Tab
+import UnytProofs.C10Tab.EmNum
+import UnytProofs.C10Tab.EmNumCgs
+import UnytProofs.C10Tab.EmNumMks
+import UnytProofs.C10Tab.EmNumImperial
+import UnytProofs.C10Tab.EmNumGalactic
+import UnytProofs.C10Tab.EmNumSolar
+import UnytProofs.C10Tab.EmNumGeometrized
+import UnytProofs.C10Tab.EmNumPlanck
 import UnytProofs.C10Tab.Cgs1
 import UnytProofs.C10Tab.Cgs2
 import UnytProofs.C10Tab.Cgs3
@@ -66,8 +74,8 @@ theorem builtin_systems_closed_partial :
     systemClosedAtomic_of_chunks _ _ tab_geometrized_1 tab_geometrized_2 tab_geometrized_3,
     systemClosedAtomic_of_chunks _ _ tab_planck_1 tab_planck_2 tab_planck_3⟩
 
-/-- the full-strength statement: no exclusions -/
-def C10_full : Prop :=
+/-- the table obligation without exclusions (the table-level face of `C10_full` below) -/
+def C10_table_full : Prop :=
   (Generated.rawSystems.map (·.name)).all (fun s => systemClosedAtomic s []) = true
 
 /-- every excluded row really fails: the full statement is false today and an exclusion cannot
@@ -95,11 +103,30 @@ theorem builtin_base_keys_complete : Generated.rawSystems.all baseKeysOk = true 
 /-- the regenerated EM table is a pairing of prefixable table units of the stated dimensions -/
 theorem em_table_is_a_pairing : emTableOk = true := by decide +kernel
 
+/-- **numbers on the EM route, 1**: the factor of every `em_conversions` row times the factor of
+    its partner row is 1 within 2⁻⁵⁰ — crossing over and back returns the original numbers -/
+theorem em_factors_inverse : emFactorsInverseOk = true := tab_em_factors_inverse
+
+/-- **numbers on the EM route, 2**: the crossing branch of `_em_conversion` multiplies by exactly
+    the table's factor (no offset) and lands on `prefix + partner`, the prefix scaling both units
+    alike (bare units and the prefixes `m`, `k`, `da`, `μ`; every canonical prefix in `C10Pre`) -/
+theorem em_cross_route_numbers : emCrossOk ["", "m", "k", "da", "μ"] = true := tab_em_cross
+
+/-- **numbers on the EM route, 3**: for every built-in system and every EM-table unit, `in_base`
+    keeps the SI magnitude where it keeps the dimension, applies exactly the table's factor where
+    it crosses, and reproduces the number whenever it reproduces the unit -/
+theorem em_route_numbers :
+    (["cgs", "mks", "imperial", "galactic", "solar", "geometrized", "planck"].all fun s =>
+      emRouteNumbersSys s [""]) = true := by
+  simp only [List.all_cons, List.all_nil, Bool.and_true, Bool.and_eq_true]
+  exact ⟨tab_emnum_cgs, tab_emnum_mks, tab_emnum_imperial, tab_emnum_galactic, tab_emnum_solar,
+    tab_emnum_geometrized, tab_emnum_planck⟩
+
 /-- the full statement is false on the current tree: `statV.in_base("cgs")` leaves cgs -/
-theorem C10_counterexample : ¬ C10_full := by
+theorem C10_table_counterexample : ¬ C10_table_full := by
   intro h
   have hc : systemClosedAtomic "cgs" [] = true := by
-    unfold C10_full at h; rw [builtin_system_names] at h
+    unfold C10_table_full at h; rw [builtin_system_names] at h
     simp only [List.all_cons, Bool.and_eq_true] at h; exact h.1
   have hbad : (match rawSystem? "cgs" with | some r => rowOkC10 r "statV" | none => true) = false := by
     decide +kernel
@@ -355,13 +382,18 @@ theorem getConversionFactor_self (v : UnitV K) (hv : v.scale ≠ 0) (y : K) :
     simp only [applyFactor]; grind
 
 omit laws in
-/-- the structure of a conversion whose dimension is not an electromagnetic one -/
-theorem inBase_nonEm (S : USys K) (u v : UnitV K) (x y : K) (hD : T.hasDim u.dim = false)
+theorem checkEm_nonEm (S : USys K) (u : UnitV K) (hD : T.hasDim u.dim = false) :
+    checkEm pre t T S u = .ok none := by simp [checkEm, hD]
+
+omit laws in
+/-- the structure of a conversion that does not take the EM route (`_check_em_conversion` returns
+    `()`: the dimension is not an EM one, or the unit is not one of the table's units — `Mx`,
+    `statC/s`, `s/cm` …) -/
+theorem inBase_nonEm (S : USys K) (u v : UnitV K) (x y : K) (hc : checkEm pre t T S u = .ok none)
     (h : inBase pre t T S u x = .ok (y, v)) :
     ((umMatches S u = true ∧ v = u) ∨
       (umMatches S u = false ∧ ∃ ex, S.lookup u.dim = .ok ex ∧ mkUnit pre t ex = .ok v)) ∧
     v.dim = u.dim ∧ ∃ f, getConversionFactor pre t u v = .ok f ∧ y = applyFactor f x := by
-  have hc : checkEm pre t T S u = .ok none := by simp [checkEm, hD]
   have hg := inBase_agrees_getBaseEquivalent pre t T S u v x y h
   simp only [inBase, hc, hg] at h
   split at h
@@ -384,7 +416,7 @@ omit laws in
 theorem inBase_idempotent (S : USys K) (u v : UnitV K) (x y : K) (hD : T.hasDim u.dim = false)
     (h : inBase pre t T S u x = .ok (y, v)) (hv : v.scale ≠ 0) :
     inBase pre t T S v y = .ok (y, v) := by
-  obtain ⟨hcase, hdim, _⟩ := inBase_nonEm pre t T S u v x y hD h
+  obtain ⟨hcase, hdim, _⟩ := inBase_nonEm pre t T S u v x y (checkEm_nonEm pre t T S u hD) h
   have hDv : T.hasDim v.dim = false := by rw [hdim]; exact hD
   have hc : checkEm pre t T S v = .ok none := by simp [checkEm, hDv]
   have hg : getBaseEquivalent pre t T S v = .ok v := by
@@ -401,11 +433,11 @@ theorem inBase_idempotent (S : USys K) (u v : UnitV K) (x y : K) (hD : T.hasDim 
 omit laws in
 /-- **in_base preserves the SI magnitude** (non-EM dimensions): the reading in the new unit
     denotes the same quantity, `scale · (value − offset)`, as the reading in the old unit -/
-theorem inBase_preserves_SI (S : USys K) (u v : UnitV K) (x y : K) (hD : T.hasDim u.dim = false)
+theorem inBase_preserves_SI (S : USys K) (u v : UnitV K) (x y : K) (hc : checkEm pre t T S u = .ok none)
     (h : inBase pre t T S u x = .ok (y, v)) (hv : v.scale ≠ 0) :
     toBase v.scale (effOffset (u.dim == Dim.dTemperature && v.spelledWithPrefix pre t) v.scale v.offset) y
       = toBase u.scale (effOffset (u.dim == Dim.dTemperature && u.spelledWithPrefix pre t) u.scale u.offset) x := by
-  obtain ⟨_, _, f, hf, hy⟩ := inBase_nonEm pre t T S u v x y hD h
+  obtain ⟨_, _, f, hf, hy⟩ := inBase_nonEm pre t T S u v x y hc h
   subst hy
   simp only [getConversionFactor] at hf
   split at hf
@@ -431,14 +463,17 @@ omit laws in
 /-- **the in-place variant agrees**: `convert_to_base` (= `convert_to_units(get_base_equivalent)`)
     yields the same numbers and the same unit as `in_base`, or the same refusal (dimensions outside
     the EM table) -/
-theorem convertToBase_eq_inBase (S : USys K) (u : UnitV K) (x : K) (hD : T.hasDim u.dim = false) :
+theorem convertToBase_eq_inBase (S : USys K) (u : UnitV K) (x : K) (hc : checkEm pre t T S u = .ok none)
+    (hH : T.hasDim u.dim = false ∨ emHit pre t T u = none) :
     convertToBase pre t T S (x, u) = inBase pre t T S u x := by
-  have hc : checkEm pre t T S u = .ok none := by simp [checkEm, hD]
   simp only [convertToBase, inBase, hc]
   cases hg : getBaseEquivalent pre t T S u with
   | error e => rfl
   | ok target =>
-    have hto : checkEmTo pre t T u target = .ok none := by simp [checkEmTo, hD]
+    have hto : checkEmTo pre t T u target = .ok none := by
+      rcases hH with hD | hH
+      · simp [checkEmTo, hD]
+      · simp only [checkEmTo, hH]; split <;> rfl
     simp only [convertToUnitsEm, hto, convertToUnits]
     cases hf : getConversionFactor pre t u target with
     | error e => rfl
@@ -450,10 +485,10 @@ theorem convertToBase_eq_inBase (S : USys K) (u : UnitV K) (x : K) (hD : T.hasDi
 
 /-- **in_base stays inside the system** (non-EM dimensions, well-formed system): the result has
     the dimension of the input and every symbol of its unit is owned by the system -/
-theorem inBase_inside (S : USys K) (hS : WF P pre t S) (u v : UnitV K) (x y : K) (hD : T.hasDim u.dim = false)
+theorem inBase_inside (S : USys K) (hS : WF P pre t S) (u v : UnitV K) (x y : K) (hc : checkEm pre t T S u = .ok none)
     (h : inBase pre t T S u x = .ok (y, v)) :
     v.dim = u.dim ∧ ∀ s, expOf v.expr.factors s ≠ 0 → Owned S s := by
-  obtain ⟨hcase, hdim, _⟩ := inBase_nonEm pre t T S u v x y hD h
+  obtain ⟨hcase, hdim, _⟩ := inBase_nonEm pre t T S u v x y hc h
   refine ⟨hdim, fun s hs => ?_⟩
   rcases hcase with ⟨hm, rfl⟩ | ⟨_, ex, hl, hmk⟩
   · simp only [umMatches] at hm
@@ -474,10 +509,10 @@ theorem inBase_inside (S : USys K) (hS : WF P pre t S) (u v : UnitV K) (x y : K)
     of the product of the system's base units — so, with `inBase_preserves_SI`, the returned number
     is the count of that unit — whatever coefficients the base units carry -/
 theorem inBase_counts_system_units (S : USys K) (hS : WF P pre t S) (u v : UnitV K) (x y : K)
-    (hD : T.hasDim u.dim = false) (hn : S.um.get? u.dim = none)
+    (hce : checkEm pre t T S u = .ok none) (hn : S.um.get? u.dim = none)
     (h : inBase pre t T S u x = .ok (y, v)) :
     v.scale = scaleOver (baseScale pre t S) u.dim baseDimsSympy := by
-  obtain ⟨hcase, _, _⟩ := inBase_nonEm pre t T S u v x y hD h
+  obtain ⟨hcase, _, _⟩ := inBase_nonEm pre t T S u v x y hce h
   rcases hcase with ⟨hm, _⟩ | ⟨_, ex, hl, hmk⟩
   · simp [umMatches, hn] at hm
   · have hlk := hl
@@ -494,8 +529,106 @@ theorem inBase_counts_system_units (S : USys K) (hS : WF P pre t S) (u v : UnitV
       simp only [denote, hw, Option.some.injEq, Prod.mk.injEq] at hsc
       rw [this]; exact hsc.1
 
+/-! ### the property itself, at the level of the model -/
+
+/-- C10 for one system, one unit and one reading: `in_base` refuses, or it returns a quantity
+    whose unit is made of symbols the system owns, has the dimension of the input or its
+    electromagnetic counterpart, is the unit `get_base_equivalent` returns, is what the in-place
+    variant produces (same number, same unit), and is reproduced — number and unit — when
+    `in_base` is applied again -/
+def ClosedAt (S : USys K) (u : UnitV K) (x : K) : Prop :=
+  match inBase pre t T S u x with
+  | .error _ => True
+  | .ok (y, v) =>
+    (∀ s, expOf v.expr.factors s ≠ 0 → Owned S s)
+    ∧ (v.dim = u.dim ∨ ∃ r, r ∈ T ∧ r.dim = u.dim ∧ r.toDim = v.dim)
+    ∧ getBaseEquivalent pre t T S u = .ok v
+    ∧ convertToBase pre t T S (x, u) = .ok (y, v)
+    ∧ inBase pre t T S v y = .ok (y, v)
+
+/-- **the full-strength statement of C10 on the model**: for every system of a class, every unit
+    of a class and every reading.  (Preservation of the quantity is `inBase_preserves_SI`; which
+    exception class a refusal has is compared with the library by the correspondence run.) -/
+def C10_full (Sys : USys K → Prop) (Units : UnitV K → Prop) : Prop :=
+  ∀ S, Sys S → ∀ u, Units u → ∀ x, ClosedAt pre t T S u x
+
+/-- **C10 holds for every well-formed system on every unit whose dimension is not an
+    electromagnetic one** (the decidable guard): user-defined systems, coefficient-carrying base
+    units, compounds, offsets, any reading.  The electromagnetic dimensions are decided row by row
+    for the built-in systems (`builtin_systems_closed_partial`, `em_route_numbers`); there the
+    statement is false on the current tree (`C10_counterexample`). -/
+theorem C10_partial (hP0 : ∀ a : K, P a → a ≠ 0) :
+    C10_full pre t T (fun S => WF P pre t S) (fun u => T.hasDim u.dim = false ∧ u.scale ≠ 0) := by
+  intro S hS u ⟨hD, hu⟩ x
+  have hc := checkEm_nonEm pre t T S u hD
+  simp only [ClosedAt]
+  cases hib : inBase pre t T S u x with
+  | error e => trivial
+  | ok r =>
+    obtain ⟨y, v⟩ := r
+    simp only []
+    obtain ⟨hdim, hown⟩ := inBase_inside P laws pre t T S hS u v x y hc hib
+    have hv : v.scale ≠ 0 := by
+      obtain ⟨hcase, _, _⟩ := inBase_nonEm pre t T S u v x y hc hib
+      rcases hcase with ⟨_, rfl⟩ | ⟨_, ex, hl, hmk⟩
+      · exact hu
+      · obtain ⟨hok, _⟩ := lookup_sound P laws pre t S hS u.dim ex hl
+        obtain ⟨sc, hden, _⟩ := denS_of_exprOK P laws pre t ex u.dim hok
+        have hps := denS_pos P laws pre t ex sc u.dim hden
+        obtain ⟨hpos, _, w, hw, _, hsw⟩ := hden
+        rw [mkUnit_scale P laws pre t ex v hmk hpos w u.dim hw, hsw]
+        exact hP0 sc hps
+    refine ⟨hown, Or.inl hdim, inBase_agrees_getBaseEquivalent pre t T S u v x y hib, ?_,
+      inBase_idempotent pre t T S u v x y hD hib hv⟩
+    rw [convertToBase_eq_inBase pre t T S u x hc (Or.inl hD)]; exact hib
+
 end inbase
 end general
+/-! ### the counterexample to the full statement -/
+section counterexample
+attribute [local instance] ratPowStub
+
+/-- a built-in system as regenerated (at ℚ; only expressions and dimensions are inspected) -/
+def BuiltinSys (S : USys Rat) : Prop := ∃ r, r ∈ Generated.rawSystems ∧ S = sysOfRaw Rat r
+
+/-- an atomic unit of the regenerated unit table -/
+def TableUnit (u : UnitV Rat) : Prop := ∃ k, k ∈ atomicNames ∧ mkUnit c10Pre c10Lut (UExpr.sym k) = .ok u
+
+/-- **C10 is false on the current tree**: `statV.in_base("cgs")` returns a quantity in `V`, and
+    applying `in_base("cgs")` to that does not return it (it goes back to `statV`) -/
+theorem C10_counterexample : ¬ C10_full c10Pre c10Lut c10Em BuiltinSys TableUnit := by
+  intro h
+  have hflip : (match rawSystem? "cgs", mkUnit c10Pre c10Lut (UExpr.sym "statV") with
+      | some r, .ok u =>
+        (match inBase c10Pre c10Lut c10Em (sysOfRaw Rat r) u 1 with
+         | .ok (y, v) =>
+           (match inBase c10Pre c10Lut c10Em (sysOfRaw Rat r) v y with
+            | .ok (_, w) => exprEq w.expr v.expr
+            | .error _ => false)
+         | .error _ => true)
+      | _, _ => true) = false := by decide +kernel
+  have hmem : "statV" ∈ atomicNames := by decide +kernel
+  cases hr : rawSystem? "cgs" with
+  | none => simp [hr] at hflip
+  | some r =>
+    cases hu : mkUnit c10Pre c10Lut (UExpr.sym "statV") with
+    | error e => simp [hr, hu] at hflip
+    | ok u =>
+      have hrm : r ∈ Generated.rawSystems := List.mem_of_find?_eq_some hr
+      have hcl := h (sysOfRaw Rat r) ⟨r, hrm, rfl⟩ u ⟨"statV", hmem, hu⟩ 1
+      simp only [hr, hu] at hflip
+      simp only [ClosedAt] at hcl
+      cases hib : inBase c10Pre c10Lut c10Em (sysOfRaw Rat r) u 1 with
+      | error e => simp [hib] at hflip
+      | ok p =>
+        obtain ⟨y, v⟩ := p
+        simp only [hib] at hflip hcl
+        obtain ⟨_, _, _, _, hidem⟩ := hcl
+        simp only [hidem] at hflip
+        simp [exprEq] at hflip
+
+end counterexample
+
 /-! ### `UnitSystem.__init__` -/
 section init
 variable {K : Type} [Lean.Grind.Field K] [RPow K] [BEq K] [LawfulBEq K]
